@@ -1,6 +1,7 @@
 pub mod gen;
 mod algs;
 mod api;
+mod custom_str;
 mod misc;
 mod text;
 #[cfg(feature = "unit")]
